@@ -1,11 +1,632 @@
-//! C14 — check not built yet.
-use mc_core::Args;
-use serde_json::Value;
+//! C14 — built transactions contain what was requested and pay exactly the fee.
+//!
+//! Bounded exhaustive exploration of the transaction builder over a shape lattice: numbers of
+//! transparent / Sapling / Orchard / Ironwood inputs and outputs in {0,1,2}, target heights on
+//! each side of every upgrade boundary that changes builder behaviour, requested transaction
+//! version, bundle padding, fee rule, funding (exact, -1, +1, +fee), memo alphabet, anchor
+//! configuration and build route (`mock_build`/`build` with mock Sapling provers,
+//! `build_for_pczt` + PCZT Creator, the deferred-anchor PCZT builder, and a few real proofs).
+//! Every case runs the real builder; the oracle is a reference model written from the
+//! property, ZIP 317, ZIP 212 and the documented padding rules (see `c14/oracle.rs`).
 
-pub fn replay(_kind: &str, _case: &Value) -> Result<(), String> {
-    Err("C14: check not built".into())
+mod drive;
+mod observe;
+mod oracle;
+mod world;
+
+use mc_core::{catch, Args, Run, Tier};
+use rayon::prelude::*;
+use serde::{Deserialize, Serialize};
+use serde_json::{json, Value};
+use std::collections::BTreeMap;
+use std::sync::atomic::{AtomicU64, Ordering};
+use std::sync::Mutex;
+
+use drive::{drive, BuildErr, Built, Stop};
+use world::{CANOPY, NU5, NU6_2, NU6_3, SAPLING, ZIP212_GRACE_END};
+
+#[derive(Clone, Debug, Serialize, Deserialize, PartialEq, Eq, Hash, PartialOrd, Ord)]
+pub struct Case {
+    /// Target height.
+    pub h: u32,
+    /// Requested version: 0 = none, 2 = Sprout v2, 3..=6.
+    pub ver: u8,
+    /// 0 = `propose_version` before anything is added, 1 = after everything is added.
+    pub ver_when: u8,
+    /// [inputs, outputs] per pool.
+    pub t: [u8; 2],
+    pub s: [u8; 2],
+    pub o: [u8; 2],
+    pub i: [u8; 2],
+    /// Orchard outputs: 0 = `add_orchard_output` (external address), 1 = `add_orchard_change_output`.
+    pub o_kind: u8,
+    /// [Orchard, Ironwood] padding: 0 = DEFAULT, 1 = UNPADDED.
+    pub pad: [u8; 2],
+    /// 0 = ZIP 317 standard, 1 = fixed non-standard fee.
+    pub fee: u8,
+    /// 0 = exact, 1 = one zatoshi short, 2 = one zatoshi over, 3 = over by the fee.
+    pub fund: u8,
+    /// Memo alphabet base (output k of pool p gets memo kind (base + k + p) mod 3).
+    pub memo: u8,
+    /// 0 = anchors only for the pools used, 1 = anchors for all three shielded pools.
+    pub anchors: u8,
+    /// 0 = `mock_build` / `build` with mock Sapling provers, 1 = `build_for_pczt`,
+    /// 2 = `DeferredPcztBuilder`, 3 = `build` with real Sapling and Orchard proofs.
+    pub route: u8,
+    /// Value alphabet: 0 = ordinary amounts, 1 = the requested inputs sum to MAX_MONEY.
+    #[serde(default)]
+    pub vals: u8,
 }
 
-pub fn run(_args: &Args) -> i32 {
-    mc_core::machinery_error("C14: check not built")
+impl Case {
+    pub fn key(&self) -> String {
+        format!(
+            "h{}/v{}{}/t{}-{}/s{}-{}/o{}-{}{}/i{}-{}/p{}{}/f{}/x{}/m{}/a{}/r{}{}",
+            self.h,
+            self.ver,
+            if self.ver == 0 { "" } else if self.ver_when == 0 { "b" } else { "a" },
+            self.t[0],
+            self.t[1],
+            self.s[0],
+            self.s[1],
+            self.o[0],
+            self.o[1],
+            if self.o_kind == 1 { "c" } else { "" },
+            self.i[0],
+            self.i[1],
+            if self.pad[0] == 0 { 'D' } else { 'U' },
+            if self.pad[1] == 0 { 'D' } else { 'U' },
+            self.fee,
+            self.fund,
+            self.memo,
+            self.anchors,
+            self.route,
+            if self.vals == 0 { "" } else { "/max" }
+        )
+    }
+    fn n_in(&self) -> u8 {
+        self.t[0] + self.s[0] + self.o[0] + self.i[0]
+    }
+    fn pools_used(&self) -> usize {
+        [self.t, self.s, self.o, self.i].iter().filter(|p| **p != [0, 0]).count()
+    }
+}
+
+fn stop_class(s: &Stop) -> String {
+    match s {
+        Stop::Add(which, e) => format!("add:{which}:{}", e.split(['(', ' ', '{']).next().unwrap_or("")),
+        Stop::Propose(_) => "propose".into(),
+        Stop::New(_) => "new".into(),
+        Stop::Build(BuildErr::Insufficient(_)) => "build:InsufficientFunds".into(),
+        Stop::Build(BuildErr::Change(_)) => "build:ChangeRequired".into(),
+        Stop::Build(BuildErr::TargetIncompatible(_)) => "build:TargetIncompatible".into(),
+        Stop::Build(BuildErr::Other(e)) => format!("build:{}", e.split([' ', '{']).next().unwrap_or("")),
+    }
+}
+
+/// Outcome labels starting with this prefix are not verdicts but signs that the harness's
+/// expectations and the code disagree in a way the property does not speak about.
+const UNEXPECTED: &str = "UNEXPECTED";
+
+fn check_built(c: &Case, r: &world::Request, built: Built) -> Result<String, String> {
+    let pad_flag = |o: &observe::Obs| {
+        let padded = o.s.as_ref().is_some_and(|p| p.n_spends > r.s_in.0.len() || p.n_outputs > r.s_out.len())
+            || o.o.as_ref().is_some_and(|p| p.n_outputs > r.o_in.0.len().max(r.o_out.len()))
+            || o.i.as_ref().is_some_and(|p| p.n_outputs > r.i_in.0.len().max(r.i_out.len()));
+        if padded {
+            ":padded"
+        } else {
+            ""
+        }
+    };
+    match built {
+        Built::Tx(tx) => {
+            let o = observe::obs_txdata(&tx, r, c.h, true, observe::t_obs_authorized);
+            oracle::check_obs(c, r, &o)?;
+            oracle::check_signatures(&tx, r)?;
+            Ok(format!("ok:tx:r{}:v{}{}{}", c.route, oracle::effective_version(c), pad_flag(&o), if r.t_in.is_empty() { "" } else { ":signed" }))
+        }
+        Built::Pczt(parts) => {
+            let o = observe::obs_parts(&parts, c.h)?;
+            oracle::check_obs(c, r, &o).map_err(|e| format!("PCZT parts: {e}"))?;
+            let label = format!("ok:pczt:r{}:v{}{}", c.route, oracle::effective_version(c), pad_flag(&o));
+            // hand the parts to the PCZT Creator and look at the partial transaction's effects
+            match pczt::roles::creator::Creator::build_from_parts(*parts) {
+                None => Ok(format!("{label}:creator-none")),
+                Some(p) => match p.into_effects() {
+                    Ok(d) => {
+                        // the ciphertexts were already opened above: require them unchanged
+                        // instead of decrypting a second time
+                        let mut o2 = observe::obs_txdata(&d, r, c.h, false, observe::t_obs_effects);
+                        for (name, a, b) in [("Sapling", &o.s, &mut o2.s), ("Orchard", &o.o, &mut o2.o), ("Ironwood", &o.i, &mut o2.i)] {
+                            match (a, b) {
+                                (Some(a), Some(b)) if a.out_fp == b.out_fp => b.dec = a.dec.clone(),
+                                (None, None) => {}
+                                _ => return Err(format!("PCZT effects after Creator: {name} outputs (commitments/ciphertexts) differ from the builder's parts")),
+                            }
+                        }
+                        oracle::check_obs(c, r, &o2).map_err(|e| format!("PCZT effects after Creator: {e}"))?;
+                        Ok(format!("{label}:effects"))
+                    }
+                    // "PCZT only supports v5 and v6 transaction data": a v4 partial transaction
+                    // cannot be turned into effects, which is recorded, not judged
+                    Err(e) if oracle::effective_version(c) < 5 => Ok(format!("{label}:effects-err:{}", format!("{e:?}").split(['(', ' ', '{']).next().unwrap_or(""))),
+                    Err(e) => Err(format!("the partial transaction made from the builder's parts has no extractable effects: {e:?}")),
+                },
+            }
+        }
+    }
+}
+
+fn check_inner(c: &Case) -> Result<String, String> {
+    let r = world::request(c);
+    let invalid = oracle::invalid_reason(c);
+    let refusal = oracle::documented_refusal(c);
+    // > 0: change required, < 0: insufficient funds (relative to the reference fee)
+    let diff: i128 = r.surplus - r.fee as i128;
+    match drive(c, &r) {
+        Err(stop) => {
+            let cls = stop_class(&stop);
+            if invalid.is_some() {
+                return Ok(format!("reject:invalid:{cls}"));
+            }
+            match &stop {
+                Stop::Build(BuildErr::Insufficient(d)) => {
+                    if diff < 0 && *d as i128 == -diff {
+                        Ok("reject:insufficient-exact".into())
+                    } else {
+                        Err(format!("builder reports InsufficientFunds({d}) but requested inputs - outputs - fee = {diff} (reference fee {} for the documented padded shape)", r.fee))
+                    }
+                }
+                Stop::Build(BuildErr::Change(d)) => {
+                    if diff > 0 && *d as i128 == diff {
+                        Ok("reject:change-exact".into())
+                    } else {
+                        Err(format!("builder reports ChangeRequired({d}) but requested inputs - outputs - fee = {diff} (reference fee {} for the documented padded shape)", r.fee))
+                    }
+                }
+                _ if refusal.is_some() => Ok(format!("reject:documented:{cls}")),
+                _ => Ok(format!("{UNEXPECTED}-REJECT:{cls}:{stop:?}")),
+            }
+        }
+        Ok(built) => {
+            if let Some(why) = invalid {
+                return Err(format!("builder emitted a result although {why} (requested version {}, height {})", c.ver, c.h));
+            }
+            let label = check_built(c, &r, built)?;
+            if diff != 0 {
+                // emitted and self-consistent with the fee rule, yet the reference padding model
+                // called it unbalanced: the model, not the code, is off
+                return Ok(format!("{UNEXPECTED}-ACCEPT:unbalanced-by-model:{label}"));
+            }
+            if refusal.is_some() {
+                return Ok(format!("{UNEXPECTED}-ACCEPT:documented-refusal:{label}"));
+            }
+            Ok(label)
+        }
+    }
+}
+
+/// Decide one case: Ok(outcome label) or Err(violation message). Panics are violations.
+pub fn check_case(c: &Case) -> Result<String, String> {
+    match catch(|| check_inner(c)) {
+        Ok(r) => r,
+        Err(p) => Err(format!("panic: {p}")),
+    }
+}
+
+pub fn replay(kind: &str, case: &Value) -> Result<(), String> {
+    match kind {
+        "case" => {
+            let c: Case = serde_json::from_value(case.clone()).map_err(|e| format!("bad case: {e}"))?;
+            check_case(&c).map(|_| ())
+        }
+        _ => Err(format!("unknown kind {kind}")),
+    }
+}
+
+// ---- enumeration -------------------------------------------------------------------------------
+
+pub const HEIGHTS: &[u32] = &[SAPLING - 1, CANOPY - 1, CANOPY, ZIP212_GRACE_END - 1, ZIP212_GRACE_END, NU5 - 1, NU5, NU6_2 - 1, NU6_2, NU6_3 - 1, NU6_3];
+
+fn pairs() -> Vec<[u8; 2]> {
+    let mut v = Vec::new();
+    for a in 0..=2u8 {
+        for b in 0..=2u8 {
+            v.push([a, b]);
+        }
+    }
+    v
+}
+
+/// All shapes over the pools available at `h` with at most `max_pools` non-empty pools.
+fn shapes(h: u32, max_pools: usize) -> Vec<[[u8; 2]; 4]> {
+    let avail = [true, h >= SAPLING, h >= NU5, h >= NU6_3];
+    let dom = |k: usize| if avail[k] { pairs() } else { vec![[0, 0]] };
+    let mut v = Vec::new();
+    for t in dom(0) {
+        for s in dom(1) {
+            for o in dom(2) {
+                for i in dom(3) {
+                    let sh = [t, s, o, i];
+                    if sh.iter().filter(|p| **p != [0, 0]).count() <= max_pools {
+                        v.push(sh);
+                    }
+                }
+            }
+        }
+    }
+    v
+}
+
+fn base(h: u32, sh: [[u8; 2]; 4]) -> Case {
+    Case { h, ver: 0, ver_when: 0, t: sh[0], s: sh[1], o: sh[2], i: sh[3], o_kind: 0, pad: [0, 0], fee: 0, fund: 0, memo: 0, anchors: 1, route: 0, vals: 0 }
+}
+
+fn routes(c: &Case) -> Vec<u8> {
+    if c.o == [0, 0] && c.i == [0, 0] {
+        vec![0, 1]
+    } else if c.t == [0, 0] && c.s == [0, 0] && c.h >= NU6_3 {
+        vec![1, 2]
+    } else {
+        vec![1]
+    }
+}
+
+fn o_kinds(c: &Case) -> Vec<u8> {
+    if c.o[1] == 0 {
+        vec![0]
+    } else if c.h >= NU6_3 {
+        vec![1]
+    } else {
+        vec![0, 1]
+    }
+}
+
+fn pads(c: &Case) -> Vec<[u8; 2]> {
+    let po: &[u8] = if c.o != [0, 0] { &[0, 1] } else { &[0] };
+    let pi: &[u8] = if c.i != [0, 0] { &[0, 1] } else { &[0] };
+    let mut v = Vec::new();
+    for a in po {
+        for b in pi {
+            v.push([*a, *b]);
+        }
+    }
+    v
+}
+
+/// Heights at which the full shape set of the tier is run; at the other ("far side of the
+/// boundary, same epoch behaviour as a primary height") heights the quick tier runs the shapes
+/// with at most one non-empty pool.
+pub const PRIMARY: &[u32] = &[SAPLING - 1, CANOPY, ZIP212_GRACE_END, NU6_2, NU6_3];
+
+/// G1: shape x Orchard output kind x padding x route x fee rule x funding (x memo x anchors).
+///
+/// "Rich" shapes (quick: <= 1 non-empty pool, thorough: <= 2) get both fee rules and, under the
+/// ZIP 317 rule, the memo alphabet and both anchor configurations; the other shapes get the
+/// ZIP 317 rule, memo base 0 and all anchors. Unbalanced funding is added for every combination
+/// with at least one input (shapes that are not rich: DEFAULT padding only).
+fn group_shapes(tier: Tier, out: &mut Vec<Case>) {
+    for &h in HEIGHTS {
+        let max_pools = match tier {
+            Tier::Quick => {
+                if PRIMARY.contains(&h) {
+                    2
+                } else {
+                    1
+                }
+            }
+            Tier::Thorough => 4,
+        };
+        for sh in shapes(h, max_pools) {
+            let b0 = base(h, sh);
+            let np = b0.pools_used();
+            let rich = np <= tier.pick(1, 2);
+            let has_shielded_out = b0.s[1] + b0.o[1] + b0.i[1] > 0;
+            for o_kind in o_kinds(&b0) {
+                for pad in pads(&b0) {
+                    for route in routes(&b0) {
+                        let fees: &[u8] = if rich { &[0, 1] } else { &[0] };
+                        for &fee in fees {
+                            let b = Case { o_kind, pad, fee, route, ..b0.clone() };
+                            out.push(b.clone());
+                            if rich && fee == 0 {
+                                if has_shielded_out {
+                                    out.push(Case { memo: 1, ..b.clone() });
+                                    out.push(Case { memo: 2, ..b.clone() });
+                                }
+                                if route != 2 {
+                                    out.push(Case { anchors: 0, ..b.clone() });
+                                }
+                            }
+                            if b.n_in() > 0 && (rich || pad == [0, 0]) {
+                                for fund in [1u8, 2, 3] {
+                                    out.push(Case { fund, ..b.clone() });
+                                }
+                            }
+                        }
+                    }
+                }
+            }
+        }
+    }
+}
+
+/// G2: requested versions (each version, proposed before or after the parts are added), over
+/// shapes that range over ALL four pools (also the ones the height or version does not have).
+fn group_versions(tier: Tier, out: &mut Vec<Case>) {
+    let mut shs: Vec<[[u8; 2]; 4]> = shapes(NU6_3, tier.pick(1, 2));
+    if tier == Tier::Quick {
+        // pairs of pools, one spend and one output each
+        for a in 0..4 {
+            for b in a + 1..4 {
+                let mut sh = [[0u8, 0]; 4];
+                sh[a] = [1, 1];
+                sh[b] = [1, 1];
+                shs.push(sh);
+            }
+        }
+    }
+    for &h in HEIGHTS {
+        for sh in &shs {
+            // away from the primary heights: quick nothing, thorough at most one non-empty pool
+            let np = sh.iter().filter(|p| **p != [0, 0]).count();
+            if !PRIMARY.contains(&h) && (tier == Tier::Quick || np > 1) {
+                continue;
+            }
+            for ver in [2u8, 3, 4, 5, 6] {
+                for ver_when in [0u8, 1] {
+                    let b0 = Case { ver, ver_when, ..base(h, *sh) };
+                    let valid = oracle::invalid_reason(&b0).is_none();
+                    for o_kind in o_kinds(&b0) {
+                        // both entry points (build, build_for_pczt) have their own version check
+                        let rs: Vec<u8> = if valid { routes(&b0).into_iter().filter(|r| *r != 2).collect() } else { vec![0, 1] };
+                        for route in rs {
+                            out.push(Case { o_kind, route, ..b0.clone() });
+                        }
+                    }
+                }
+            }
+        }
+    }
+}
+
+/// G3: pools requested at heights that do not have them, documented refusals.
+fn group_probes(out: &mut Vec<Case>) {
+    for &h in HEIGHTS {
+        for (k, avail) in [(1usize, h >= SAPLING), (2, h >= NU5), (3, h >= NU6_3)] {
+            if avail {
+                continue;
+            }
+            for p in [[1u8, 0], [0, 1], [1, 1]] {
+                let mut sh = [[1u8, 1], [0, 0], [0, 0], [0, 0]];
+                sh[k] = p;
+                for route in [0u8, 1] {
+                    for anchors in [0u8, 1] {
+                        out.push(Case { route, anchors, ..base(h, sh) });
+                    }
+                }
+            }
+        }
+        // the deferred-anchor builder before NU6.3
+        if h < NU6_3 && h >= NU5 {
+            out.push(Case { route: 2, ..base(h, [[0, 0], [0, 0], [1, 1], [0, 0]]) });
+        }
+    }
+    // plain Orchard outputs where cross-address transfers are disabled
+    for o in [[0u8, 1], [1, 1], [0, 2], [2, 2]] {
+        for route in [1u8, 2] {
+            let t = if route == 2 { [0, 0] } else { [1, 1] };
+            out.push(Case { route, o_kind: 0, ..base(NU6_3, [t, [0, 0], o, [0, 0]]) });
+        }
+    }
+}
+
+/// G5: amounts at the top of the range (the requested inputs sum to MAX_MONEY): one or two
+/// inputs/outputs in one pool, and one spend + one output in each pair of pools, at the three
+/// heights with distinct pool sets, every route, both fee rules, funding exact / -1 / +1.
+fn group_big_values(out: &mut Vec<Case>) {
+    for h in [ZIP212_GRACE_END, NU6_2, NU6_3] {
+        let avail = [true, true, h >= NU5, h >= NU6_3];
+        let mut shs: Vec<[[u8; 2]; 4]> = Vec::new();
+        for a in 0..4 {
+            for p in [[1u8, 1], [2, 1], [2, 2]] {
+                let mut sh = [[0u8, 0]; 4];
+                sh[a] = p;
+                shs.push(sh);
+            }
+            for b in 0..4 {
+                if a != b {
+                    // a pays b
+                    let mut sh = [[0u8, 0]; 4];
+                    sh[a] = [1, 0];
+                    sh[b] = [0, 1];
+                    shs.push(sh);
+                }
+            }
+        }
+        for sh in shs {
+            if (0..4).any(|k| sh[k] != [0, 0] && !avail[k]) {
+                continue;
+            }
+            let b0 = Case { vals: 1, ..base(h, sh) };
+            for o_kind in o_kinds(&b0) {
+                for route in routes(&b0) {
+                    for fee in [0u8, 1] {
+                        for fund in [0u8, 1, 2] {
+                            out.push(Case { o_kind, route, fee, fund, ..b0.clone() });
+                        }
+                    }
+                }
+            }
+        }
+    }
+}
+
+/// G4 (thorough): a handful of shapes through `build` with real Sapling and Orchard proofs.
+fn group_real_proofs(out: &mut Vec<Case>) {
+    let mk = |h: u32, sh: [[u8; 2]; 4], o_kind: u8, pad: [u8; 2], fee: u8| Case { route: 3, o_kind, pad, fee, memo: 1, ..base(h, sh) };
+    out.push(mk(NU6_3, [[1, 1], [1, 1], [1, 1], [1, 1]], 1, [0, 0], 0));
+    out.push(mk(NU6_3, [[0, 1], [0, 0], [1, 0], [1, 1]], 0, [1, 1], 0));
+    out.push(mk(NU6_2, [[1, 0], [0, 0], [0, 1], [0, 0]], 0, [0, 0], 1));
+    out.push(mk(NU5, [[0, 0], [0, 0], [1, 2], [0, 0]], 0, [0, 0], 0));
+    out.push(mk(NU5 - 1, [[1, 1], [1, 1], [0, 0], [0, 0]], 0, [0, 0], 0));
+    out.push(mk(NU6_3, [[2, 0], [0, 0], [0, 0], [0, 2]], 0, [0, 0], 0));
+}
+
+/// The enumerated space in execution stages (a wall-clock cap can only cut a later stage).
+fn stages(tier: Tier) -> Vec<(String, Vec<Case>)> {
+    let mut seen = std::collections::BTreeSet::new();
+    let mut dedup = |v: Vec<Case>| -> Vec<Case> { v.into_iter().filter(|c| seen.insert(c.clone())).collect() };
+    let mut st = Vec::new();
+    let mut v = Vec::new();
+    group_probes(&mut v);
+    st.push(("G3 probes".to_string(), dedup(v)));
+    let mut v = Vec::new();
+    group_big_values(&mut v);
+    st.push(("G5 amounts up to MAX_MONEY".to_string(), dedup(v)));
+    let mut v = Vec::new();
+    group_versions(tier, &mut v);
+    st.push(("G2 versions".to_string(), dedup(v)));
+    let mut v = Vec::new();
+    group_shapes(tier, &mut v);
+    let v = dedup(v);
+    for np in 0..=4usize {
+        let part: Vec<Case> = v.iter().filter(|c| c.pools_used() == np).cloned().collect();
+        if !part.is_empty() {
+            st.push((format!("G1 shapes with {np} non-empty pools"), part));
+        }
+    }
+    if tier == Tier::Thorough {
+        let mut v = Vec::new();
+        group_real_proofs(&mut v);
+        // first: the proving keys take long to build, start them early (own stage, own threads)
+        st.insert(0, ("G4 real proofs".to_string(), dedup(v)));
+    }
+    st
+}
+
+pub fn run(args: &Args) -> i32 {
+    let run = Run::new(args, "exploration");
+    run.set_rule(
+        "every case is one run of the real builder. G1 = shapes (transparent/Sapling/Orchard/Ironwood inputs x outputs, each count in {0,1,2}, only pools the \
+         height has; thorough: all shapes at all 11 heights; quick: <= 2 non-empty pools at the 5 primary heights, <= 1 at the 6 others) x Orchard output kind \
+         {plain, change} x padding {DEFAULT,UNPADDED} per used Orchard-family pool x route {mock_build/build with mock Sapling provers, build_for_pczt + PCZT \
+         Creator, deferred-anchor PCZT builder} x fee rule {ZIP 317; fixed 1234 for rich shapes} x funding {exact, -1, +1, +fee; shapes that are not rich: unbalanced only with DEFAULT padding} \
+         (+ memo base {1,2} and anchors {used pools only} for rich shapes under ZIP 317; rich = <= 1 non-empty pool (quick) / <= 2 (thorough)); G2 = requested \
+         version {Sprout v2, v3, v4, v5, v6} x {proposed before, after adding} x shapes over all four pools (quick: <= 1 non-empty pool + pool pairs at the \
+         primary heights; thorough: <= 2 at the primary heights, <= 1 at the others); G3 = pools \
+         requested at heights without them, plain Orchard outputs at NU6.3, deferred builder before NU6.3; G4 (thorough) = 6 shapes with real Sapling/Orchard \
+         proofs; G5 = inputs summing to MAX_MONEY for 1-pool shapes (1,1),(2,1),(2,2) and every ordered pair of pools (one spend pays one output) at 3 heights x \
+         routes x fee rules x funding {exact,-1,+1}. 11 heights: each side of Sapling, Canopy, end of the ZIP 212 grace period, NU5, NU6.2, NU6.3. A case is distinct by its full parameter tuple.",
+    );
+    run.assume("padding reference model from the documentation: Sapling bundles hold >=1 spend and >=2 outputs when used; Orchard-family bundles hold max(spends,outputs) actions (spends+outputs where cross-address transfers are disabled: Orchard pool from NU6.3), padded to 2 (DEFAULT) or 1 (UNPADDED)");
+    run.assume("ZIP 317 fee of the built shape: 5000 x max(2, max(ceil(tx_in bytes/150), ceil(tx_out bytes/34)) + max(Sapling spends, Sapling outputs) + Orchard actions + Ironwood actions); an unsigned P2PKH input counts 149 bytes");
+    run.assume("signature hashes are computed with zcash_primitives::transaction::sighash::signature_hash (its correctness is C04's subject) over the built transaction, with the script and value of the REQUESTED coin");
+    run.assume("a refusal other than InsufficientFunds/ChangeRequired for a valid balanced request is not a violation of C14 (the property only says when the builder must fail); such refusals outside the documented ones (plain Orchard output at NU6.3, Sapling PCZT before ZIP 212 enforcement) fail the run as a machinery error instead");
+    run.assume("Sapling outputs are trial-decrypted with ZIP 212 enforcement On from Canopy activation and Off before; spent Sapling notes use post-ZIP-212 rseeds at every height");
+    run.assume("target heights before Overwinter are outside the domain (signature hashing for pre-Overwinter transactions is documented as unsupported); transparent inputs are P2PKH");
+    run.assume("PCZT results: the builder's parts are checked directly, then handed to the PCZT Creator and the partial transaction's effects (Pczt::into_effects) are checked again with unchanged output ciphertexts; signing a PCZT is C13's subject");
+
+    let mut stages = stages(args.tier);
+    let mut partial = false;
+    if let Ok(only) = std::env::var("C14_ONLY_STAGE") {
+        partial = true;
+        // debugging aid: run only the stages whose name contains the given text
+        stages.retain(|(n, _)| n.contains(&only));
+        run.cap_hit(&format!("C14_ONLY_STAGE={only}: other stages not executed"));
+    }
+    let total: usize = stages.iter().map(|(_, v)| v.len()).sum();
+    run.section("stages", json!(stages.iter().map(|(n, v)| json!({"stage": n, "cases": v.len()})).collect::<Vec<_>>()));
+    run.section("heights", json!(HEIGHTS));
+    run.section("primary_heights", json!(PRIMARY));
+    run.section("distinct_cases_enumerated", json!(total));
+
+    world::world();
+    // C14_CAP_S: debugging aid to lift the wall-clock cap on a loaded machine
+    let cap_s = std::env::var("C14_CAP_S").ok().and_then(|s| s.parse::<f64>().ok()).unwrap_or(args.tier.pick(50.0, 570.0));
+    let done = AtomicU64::new(0);
+    let unexpected: Mutex<Vec<String>> = Mutex::new(Vec::new());
+    let per_height: Mutex<BTreeMap<u32, [u64; 2]>> = Mutex::new(BTreeMap::new());
+    let mut capped = false;
+    let mut stage_report = Vec::new();
+    let process = |c: &Case, skipped: &AtomicU64| {
+        if run.elapsed() > cap_s {
+            skipped.fetch_add(1, Ordering::Relaxed);
+            return;
+        }
+        let res = check_case(c);
+        done.fetch_add(1, Ordering::Relaxed);
+        match res {
+            Ok(label) => {
+                {
+                    let mut g = per_height.lock().unwrap();
+                    let e = g.entry(c.h).or_insert([0, 0]);
+                    e[usize::from(!label.starts_with("ok:"))] += 1;
+                }
+                if label.starts_with(UNEXPECTED) {
+                    let mut g = unexpected.lock().unwrap();
+                    if g.len() < 20 {
+                        g.push(format!("{} -> {}", c.key(), label));
+                    }
+                    run.outcome(label.splitn(4, ':').take(3).collect::<Vec<_>>().join(":").as_str());
+                } else {
+                    run.outcome(&label);
+                }
+                if label.starts_with("ok:") && c.pools_used() >= 2 && c.fund == 0 {
+                    run.sample(json!({"case": c.key(), "outcome": label}));
+                }
+            }
+            Err(msg) => run.fail("case", c.key(), msg, serde_json::to_value(c).unwrap()),
+        }
+    };
+    // The real-proof stage runs on a plain thread next to the others: the Sapling prover
+    // (bellman) refuses to run inside a rayon pool.
+    let real: Vec<Case> = stages.iter().filter(|(n, _)| n.starts_with("G4")).flat_map(|(_, v)| v.iter().cloned()).collect();
+    // while real proofs are being made, leave a quarter of the cores to the provers' own pools
+    let n_threads = std::thread::available_parallelism().map_or(8, |n| n.get());
+    let pool = rayon::ThreadPoolBuilder::new().num_threads(if real.is_empty() { n_threads } else { (n_threads * 3 / 4).max(1) }).build().expect("thread pool");
+    let real_skipped = AtomicU64::new(0);
+    let real_wall = Mutex::new(0.0f64);
+    std::thread::scope(|sc| {
+        let h = sc.spawn(|| {
+            for c in &real {
+                process(c, &real_skipped);
+            }
+            *real_wall.lock().unwrap() = run.elapsed();
+        });
+        for (name, cases) in stages.iter().filter(|(n, _)| !n.starts_with("G4")) {
+            let skipped = AtomicU64::new(0);
+            let t0 = run.elapsed();
+            pool.install(|| cases.par_iter().for_each(|c| process(c, &skipped)));
+            let sk = skipped.load(Ordering::Relaxed);
+            stage_report.push(json!({"stage": name, "cases": cases.len(), "not_executed": sk, "wall_s": run.elapsed() - t0}));
+            if sk > 0 {
+                capped = true;
+                run.cap_hit(&format!("wall cap {cap_s}s hit in stage '{name}': {sk} of its {} cases not executed (earlier stages complete)", cases.len()));
+            }
+        }
+        h.join().expect("real-proof thread");
+    });
+    if !real.is_empty() {
+        let sk = real_skipped.load(Ordering::Relaxed);
+        stage_report.push(json!({"stage": "G4 real proofs (own thread, concurrent)", "cases": real.len(), "not_executed": sk, "finished_at_s": *real_wall.lock().unwrap()}));
+        if sk > 0 {
+            capped = true;
+            run.cap_hit(&format!("wall cap {cap_s}s: {sk} of {} real-proof cases not executed", real.len()));
+        }
+    }
+    run.eval_distinct(done.load(Ordering::Relaxed));
+    run.section("stage_report", json!(stage_report));
+    run.section("per_height_built_vs_refused", json!(per_height.lock().unwrap().iter().map(|(h, v)| (h.to_string(), json!({"built": v[0], "refused": v[1]}))).collect::<BTreeMap<_, _>>()));
+    let unexpected = unexpected.into_inner().unwrap();
+    run.section("unexpected", json!(unexpected));
+    let failed = run.failure_count() > 0;
+    run.require(unexpected.is_empty() || failed, &format!("the builder's refusals/acceptances disagree with the reference expectations: {unexpected:?}"));
+    run.require(run.outcomes_distinct() >= 12 || failed || partial, "fewer than 12 distinct outcome classes");
+    {
+        let g = per_height.lock().unwrap();
+        run.require(failed || capped || partial || HEIGHTS.iter().all(|h| g.get(h).is_some_and(|v| v[0] > 0 && v[1] > 0)), "some height saw no built result or no refusal");
+    }
+    run.finish(&replay)
 }
